@@ -139,6 +139,19 @@ BUILT = {
         note='Trusted: TLC, numpy allclose at 1e-9. Bounded: orders 0..7 (quick) / 0..9, pair lists of length <= 2 / 3 from n <= 4 / 5. The single-order '
              'functions themselves are bound to their definitions by C07.',
         technique='TLA+ algorithm-machine spec (SeqSweep.tla) checked by TLC for every request; each request replayed into every *_seq routine and compared with the single-order function'),
+    'C07': dict(
+        spec='OrthoPoly.tla, QPoly.tla, ModQ.tla',
+        text='OrthoPoly.tla defines every family by its textbook closed form (DLMF 18.5.7 for Jacobi, explicit trigonometric-equivalent sums for the four '
+             'Chebyshev kinds, explicit sums for both Hermite, Laguerre, both Dickson, the factorial formula for the Zernike radial part, Qcon through '
+             'Jacobi(0,4), monomials for XY/Hopkins) with rational coefficients carried exactly as residues modulo sixteen primes (ModQ.tla); it never uses '
+             'the recurrences the library uses. TLC checks, for every (family, parameters, order), orthogonality against every lower order and the norm '
+             'through exact moments (Jacobi family incl. alpha+beta in {0,-1}, Zernike radial parts, hence unit RMS), the Chebyshev sums against their Jacobi '
+             'characterisation and end-point values. QPoly.tla defines Qbfs and 2D-Q by exact Gram-Schmidt under Forbes\' slope inner product as a step '
+             'machine, calibrated on the two closed forms. The exact values at rational points are reconstructed (CRT + rational reconstruction, '
+             'self-checked) and compared with prysm.polynomials.<family>(n, ..., x) in scalar, 0-D, 1-D and 2-D forms.',
+        note='Trusted: TLC, the 40-line ModQ interpreter. Bounded: orders <= 10 (quick) / 20; Qbfs and 2D-Q n <= 5, m <= 3 (quick) / n <= 9, m <= 5; '
+             'rational points only; orders beyond the bound are not examined.',
+        technique='TLA+ specs (OrthoPoly.tla closed-form definitions + exact-moment orthogonality, QPoly.tla exact Gram-Schmidt) checked by TLC; exact values replayed into prysm.polynomials'),
 }
 
 NOT_BUILT_REASON = 'not built yet in this round (specification planned in DESIGN.md section 4; never decided by another technique)'
